@@ -192,8 +192,18 @@ def crash_context(job, n_crashes, fault):
     sc, fs = job.sc, job.fs
     csvp = posixpath.normpath(sc["csv"])
     ops = getattr(job, "_cur_update_ops", [])
-    hist = any(k == "write" and p == csvp for k, p in ops)
-    hist_created = any(k == "create" and p == csvp for k, p in ops)
+    # described by what is on the disk, not by the calls that put it there (the history may be appended to,
+    # or rewritten and renamed into place; checkpoints may be staged anywhere)
+    got = ts.csv_rows(fs, sc)
+    def _epoch(r):
+        try:
+            return int(r["epoch"])
+        except (TypeError, ValueError, KeyError):
+            return None  # a torn row
+
+    hist = bool(job.in_update) and bool(got) and any(_epoch(r) == job.in_update for r in got[0])
+    hist_created = csvp in fs.files and len(fs.files[csvp]) == 0 and any(p == csvp for k, p in ops)
+    mine = set(paths_for(sc, job.in_update)) if job.in_update else set()
     ctx = {
         "keep2": bool(sc["params"]["keep_last_and_best_only"]),
         "model_fmt_epoch": fmt_has_epoch(sc["params"]["saved_model_fmt"]),
@@ -204,7 +214,7 @@ def crash_context(job, n_crashes, fault):
         "n_faults": n_crashes,
         "hist_appended": hist,
         "hist_created_empty": hist_created and not hist,
-        "replaces_done": sum(1 for k, p in ops if k == "replace"),
+        "replaces_done": sum(1 for k, p in ops if k == "replace" and p in mine),
         "removes_done": sum(1 for k, p in ops if k == "remove"),
         "orphan_present": bool(getattr(job, "_orphan_at_update_start", False)),
         # the update removed a checkpoint file of its own epoch's paths that was there when it began (a file that
@@ -782,8 +792,11 @@ def fs_fidelity(seed, n_jobs=12):
                               "differ": [n for n in sim if n in real and sim[n] != real[n]][:4]}
         rows.append({"job": sample_repr(sc), "crash_points": K + 1, "agree": agree, "agree_up_to_clean_up_order": order_only, "first_difference": first_diff})
         print(f"fs-fidelity job {len(rows)}: {agree}/{K + 1} crash points leave the same files in SimFS and on tmpfs")
-    rep = {"seed": seed, "rows": rows, "agree": sum(r["agree"] for r in rows), "total": sum(r["crash_points"] for r in rows), "wall_s": round(time.time() - t0, 1),
-           "note": "informational: surviving files after a simulated crash before FS-op k vs after a real os._exit() before the k-th mutating call (mkdir, create, buffered write at flush/close, replace, remove) on tmpfs; never affects any check's exit code"}
+    from simkit import fsfid
+
+    micro = fsfid.run()  # the calls SimFS models beyond those the repository makes today
+    rep = {"seed": seed, "rows": rows, "micro_workloads": micro, "agree": sum(r["agree"] for r in rows + micro), "total": sum(r["crash_points"] for r in rows + micro), "wall_s": round(time.time() - t0, 1),
+           "note": "informational: surviving files after a simulated crash before FS-op k vs after a real os._exit() before the k-th mutating call (mkdir, create, buffered write at flush/close, replace, remove) on tmpfs, for training jobs (rows) and for scripted workloads using mkstemp + fdopen, fsync, temporary directories, directory rename, rmtree, rmdir, copyfile, truncating / appending / unbuffered opens, os.write and pathlib (micro_workloads). How many bytes a buffered file holds back is a knob of SimFS (varied per scenario), not something this probe compares. Never affects any check's exit code"}
     os.makedirs(runner.EVIDENCE, exist_ok=True)
     with open(os.path.join(runner.EVIDENCE, "fs-fidelity.json"), "w") as f:
         json.dump(rep, f, indent=1)
